@@ -673,12 +673,15 @@ def c07_family(tier, rnd):
         [("class", {"q": "'", "v": 'say "hi"'}), ("ID", {"v": "i1", "sp": "  ", "eq": " = "})],
         ["checked", "class", ("title", {"q": '"', "v": "it's"})],
         [("title", {"v": "R&amp;D 1 &lt; 2 &#39;q&#39;"}), ("class", {"q": "'", "v": "a&amp;b"})],
+        # written without quotes: once the value is computed the attribute is quoted
+        [("class", {"q": "", "v": "plain"}), ("id", {"q": "", "v": "i2", "sp": "\n  "}), ("title", {"v": "50% off"})],
     ]
     named = ["class", "CLASS", "id", "checked", "title"]
     ndom = [NONE, DEFAULT, S(""), B(False), S("h")] if quick else \
         [NONE, DEFAULT, S(""), I(0), B(False), B(True), S("a"), S("h"), BY("h"), OBJ("html")]
     ddom = [DICT([]), DICT([("class", S("b"))]), DICT([("id", S("c")), ("checked", B(True))]),
-            DICT([("class", NONE), ("title", S("h")), ("checked", I(0))])]
+            DICT([("class", NONE), ("title", S("h")), ("checked", I(0))]),
+            DICT([("CLASS", S("b")), ("Checked", B(False)), ("ID", S("h"))])]
     kinds = named + ["{}"]
     # at most one dictionary per statement: a second one is rejected by the compiler
     # ("Duplicate attribute name"), which the property does not claim to be valid
